@@ -121,6 +121,7 @@ struct ExCheck : Check {
 			if (std::string(kind) == "bar") { size_t b = cmdline.find('|'); m.exec(cmdline.substr(0, b)); R = m.exec(cmdline.substr(b + 1)); R.rejected = false; R.row_defined = false; }
 			else R = m.exec(cmdline);
 			m.input = nullptr;
+			m.pending_soft = false;
 			if (!R.rejected) cur_known = R.row_defined;
 		}
 	};
@@ -442,6 +443,14 @@ struct ExCheck : Check {
 			c.count("leftover_text_lines_run_as_commands");
 		}
 		M.input = nullptr;
+		M.pending_soft = false;
+		if (M.murky) {
+			// a register body or | list went on after a command that did nothing on line 0: where the current
+			// line is for the rest of it is not defined by the reference
+			dead = true;
+			c.count("plans_continuing_after_a_soft_rejection");
+			return;
+		}
 		if (M.starved) {
 			// the plan gives the command fewer text blocks than the reference needs (only minimised or
 			// drifted plans do): the editor then reads the following steps as text; nothing is comparable
